@@ -297,7 +297,7 @@ theorem unget_sim {B c a} (h : Sim B c a) (hu : a.canUnget = true) (x : Nat) (hx
     have : c.rpos - 1 + 1 = c.rpos := by omega
     rw [this]
     exact List.drop_set_of_lt (by omega)
-  · show (if (x == 10) = true then c.line - 1 else c.line) = (if (x == 10) = true then a.line - 1 else a.line)
+  · show (if (x == 10) = true then decLine c.line else c.line) = (if (x == 10) = true then decLine a.line else a.line)
     rw [h.line]
   · intro hc; cases hc
 
